@@ -70,15 +70,25 @@ func doAclCheck(method string, path string, token *jwt.Token, core *security.Ser
 	}
 
 	// get the method
-	action := "read"
-	if method == "DELETE" || method == "POST" {
-		action = "write"
+	// every method that can change state needs write access
+	action := "write"
+	if method == "GET" || method == "HEAD" || method == "OPTIONS" {
+		action = "read"
 	}
 
+	// an explicit deny that covers this request is never overridden by an allow
+	granted := false
 	for _, ac := range acl {
-		if core.CheckGranted(ac, path, action) {
-			return nil
+		if ac.Deny {
+			if core.CheckGranted(&security.AccessControl{Resource: ac.Resource, Action: ac.Action}, path, action) {
+				return echo.NewHTTPError(http.StatusForbidden, "user does not have permission")
+			}
+		} else if core.CheckGranted(ac, path, action) {
+			granted = true
 		}
+	}
+	if granted {
+		return nil
 	}
 
 	return echo.NewHTTPError(http.StatusForbidden, "user does not have permission")
